@@ -21,7 +21,7 @@ ASSUMPTIONS = unitkit.UNITS_STUB_TEXT + [
     "completeness of the four symbol classes is re-checked on every run by an AST pass over unit_environment.py (uses of `symbol` must be membership test, table key, list element, prefix concatenation)",
 ]
 OUTSIDE = ['more than 3 units per scope, nesting deeper than 2', 'concurrent use of the process-wide tables from several threads']
-BOUNDS = {'quick': '<= 2 units per scope (4 classes x 6 kinds each), body raises or not, 4 scope shapes (with / explicit close / nested / repeated); 14 DIP texts',
+BOUNDS = {'quick': '<= 2 units per scope (4 classes x 6 kinds each), body raises or not, 5 scope shapes (with / explicit close / nested / repeated / overlapping, older scope closed first); 14 DIP texts',
           'thorough': '<= 3 units per scope'}
 EXHAUSTIVE = {'quick': True, 'thorough': True}
 PRE = '''
@@ -100,6 +100,23 @@ def run(v, O):
                     body(v, O, out, units, 'nested')
                     if v.body_raises: raise RuntimeError('body failed')
                 out.append(('outer unit still usable after the inner scope', O.eq(Quantity(1, 'outer1').value('m'), v.x0, 1e-9)))
+        elif shape == 'overlap':
+            # two scopes whose lifetimes overlap without nesting: the older one is closed first
+            first = UnitEnvironment({'outer1': {'magnitude': v.x0, 'dimensions': [1, 0, 0, 0, 0, 0, 0, 0], 'definition': MyType2}})
+            try:
+                second = UnitEnvironment(units)
+            except Exception:
+                first.close()
+                raise
+            try:
+                body(v, O, out, units, 'overlap')
+            finally:
+                types_mid0 = list(UNIT_TYPES)
+                first.close()
+                out.append(('closing the older scope removes exactly its own conversion type', O.same([t for t in types_mid0 if t is not MyType2], list(UNIT_TYPES))))
+                body(v, O, out, units, 'overlap, older scope closed')
+                second.close()
+            if v.body_raises: raise RuntimeError('body failed')
         elif shape == 'repeat':
             for rep in (0, 1):
                 try:
@@ -197,7 +214,7 @@ def scenarios(tier, seed):
     S = []
     counts = (1, 2) if tier == 'quick' else (1, 2, 3)
     for count in counts:
-        for shape in ('with', 'close', 'nested', 'repeat'):
+        for shape in ('with', 'close', 'nested', 'repeat', 'overlap'):
             for raises in (False, True):
                 inp = {}
                 pre = []
